@@ -80,7 +80,8 @@ class Lib:
         self._fn = {}
 
     @classmethod
-    def get(cls, kind="rel"):
+    def get(cls, kind=None):
+        kind = kind or os.environ.get("VERIF_LIBKIND", "rel")
         if kind not in cls._inst:
             cls._inst[kind] = Lib(kind)
         return cls._inst[kind]
@@ -163,12 +164,29 @@ GUARD = 512  # bytes of canary on each side
 CANARY = 0x7F   # as double 1.4e306, as int64 9.2e18: an out-of-extent read that influences a result becomes visible
 
 
+ASAN = os.environ.get("VERIF_ASAN") == "1"
+_libc = None
+
+
 class Buf:
     """A heap buffer of exactly `nbytes` payload bytes, placed at `off` bytes past a 64-byte boundary,
-    between two canary zones. Payload pre-filled with `fill` (a byte)."""
+    between two canary zones. Payload pre-filled with `fill` (a byte).
+    Under the AddressSanitizer observer (VERIF_ASAN=1) the buffer is instead an exact-size malloc block, so that the
+    sanitizer's redzones start at the first byte outside the declared extent (reads included)."""
 
     def __init__(self, nbytes, off=0, fill=0xCD):
         self.nbytes = int(nbytes)
+        if ASAN:
+            global _libc
+            if _libc is None:
+                _libc = ctypes.CDLL(None)      # global namespace: the sanitizer's malloc interceptor when it is preloaded
+                _libc.malloc.restype = ctypes.c_void_p
+                _libc.malloc.argtypes = [ctypes.c_size_t]
+            self.addr = _libc.malloc(max(self.nbytes, 1))
+            self.pos = 0
+            self.raw = np.ctypeslib.as_array(ctypes.cast(self.addr, ctypes.POINTER(ctypes.c_uint8)), shape=(max(self.nbytes, 1),))[:self.nbytes]
+            self.raw[:] = fill
+            return
         total = GUARD + 64 + self.nbytes + GUARD + 64
         self.raw = np.empty(total, dtype=np.uint8)
         base = self.raw.ctypes.data
@@ -198,6 +216,8 @@ class Buf:
         return self.raw[self.pos:self.pos + self.nbytes]
 
     def canaries_ok(self):
+        if ASAN:
+            return True
         return bool((self.raw[:self.pos] == CANARY).all() and (self.raw[self.pos + self.nbytes:] == CANARY).all())
 
     def snapshot(self):
